@@ -722,6 +722,10 @@ class SymReal(Sym):
     def __hash__(self):
         raise Unsupported("hash of symbolic real")
 
+    def __bool__(s):
+        # truthiness of a float: everything but 0.0 (the code under test may write `if x:` where it means `if x is not None:`)
+        return CTX.branch(s.t != 0)
+
     def trunc(s):
         """int(x): truncation toward zero"""
         fl = z3.ToInt(s.t)
